@@ -25,6 +25,18 @@ static void roundtrip_one(const Kind &k, int sz, IoGen &g) {
     std::string s2 = to_file_bytes([&](FILE *f) { k.exp_f(f, *o); });
     out.evaluations++;
     if (s1 != s2) out.viol("io:" + k.name + ":transports-differ", J().s("kind", k.name).u("stream_bytes", s1.size()).u("file_bytes", s2.size()));
+    // other kinds of handles the API accepts: FILE* in append mode, FILE* on a pipe (not seekable), ofstream in append mode
+    if (sz == 0 || rng.below(3) == 0) {
+        std::string s3 = to_append_file_bytes([&](FILE *f) { k.exp_f(f, *o); });
+        std::string s4 = to_pipe_bytes([&](FILE *f) { k.exp_f(f, *o); });
+        std::string s5; { char path[] = "/tmp/vh-io-XXXXXX"; int fd = mkstemp(path); close(fd); { std::ofstream of(path, std::ios::binary | std::ios::app); k.exp_s(of, *o); }
+            std::ifstream in(path, std::ios::binary); std::ostringstream ss; ss << in.rdbuf(); s5 = ss.str(); unlink(path); }
+        out.evaluations += 3;
+        if (s3 != s1) out.viol("io:" + k.name + ":transports-differ:FILE-append-mode", J().s("kind", k.name).u("stream_bytes", s1.size()).u("file_bytes", s3.size()));
+        if (s4 != s1) out.viol("io:" + k.name + ":transports-differ:FILE-on-pipe", J().s("kind", k.name).u("stream_bytes", s1.size()).u("file_bytes", s4.size()));
+        if (s5 != s1) out.viol("io:" + k.name + ":transports-differ:ofstream-append-mode", J().s("kind", k.name).u("stream_bytes", s1.size()).u("file_bytes", s5.size()));
+        char cell2[96]; snprintf(cell2, sizeof cell2, "%s:handles:append,pipe,ofstream-app", k.name.c_str()); out.cell(cell2);
+    }
     // exporting must not change the object: a second export gives the same bytes
     std::string s1b = to_stream_bytes([&](std::ostream &os) { k.exp_s(os, *o); });
     if (s1b != s1) out.viol("io:" + k.name + ":export-not-repeatable", J().s("kind", k.name));
